@@ -209,8 +209,15 @@ fn c15_sync(rec: &mut Rec, tier: u8, seed: u64, idx: usize) {
 
 /// C13 on a blocking program: determinism and clean stop / resume at every k (Spurious branches, disabled threads)
 fn c13_sync(rec: &mut Rec, tier: u8, seed: u64, idx: usize) {
-    use crate::sync::{run_loom, SCfg};
-    let p = sync_prog_for(seed, idx);
+    use crate::sync::{run_loom, SCfg, SOp::*, SProg};
+    // the first slots: waits on loom::sync::Notify (every wait is a Spurious branch in the stored path: taken or not yet)
+    let sp = |threads: Vec<Vec<crate::sync::SOp>>| SProg { threads, loom_arc: false, forget_rx: false, rx_owner: 0 };
+    let p = match idx {
+        5 => sp(vec![vec![AStore(0, 1), NNotify, ALoad(1), Join(1)], vec![NWait, ALoad(0), AStore(1, 1)]]),
+        8 => sp(vec![vec![NNotify, AStore(0, 1), NNotify, Join(1)], vec![NWait, ALoad(0), NWait, ALoad(0)]]),
+        11 => sp(vec![vec![ALoad(0), NNotify, Join(1), Join(2)], vec![NWait, AStore(0, 1)], vec![ALoad(0), AStore(0, 2)]]),
+        _ => sync_prog_for(seed, idx),
+    };
     rec.hash = p.hash();
     rec.prog = p.s();
     rec.extra = json!({"family": "path"});
